@@ -45,8 +45,21 @@ def main():
 
     signal.signal(signal.SIGALRM, on_alarm)
     done = []
+    # the tour through every module of the library is made once, in the middle of the shard (harness/warmup.py)
+    n_lines = sum(1 for _ in open(inp))
+    tour_at = n_lines // 2 if os.environ.get("VERIF_WARMUP", "1") == "1" and not getattr(mod, "NO_WARMUP", False) else -1
     with open(inp) as f, open(outp, "w") as g:
-        for line in f:
+        for k_line, line in enumerate(f):
+            if k_line == tour_at:
+                try:
+                    import warmup
+                    signal.setitimer(signal.ITIMER_REAL, 60)
+                    try:
+                        warmup.run()
+                    finally:
+                        signal.setitimer(signal.ITIMER_REAL, 0)
+                except BaseException:  # noqa: BLE001 - the tour itself is not judged
+                    pass
             c = json.loads(line)
             rec = {"id": c["id"]}
             try:
